@@ -189,9 +189,9 @@ func present(r *rig.Rig, k caller, initiator string, form url.Values) (auth stri
 
 // verdict of the statement on one presentation, for a flow started by initiator.
 const (
-	mustRefuse = iota // not the (authenticated / identified) initiating client
-	maySucceed        // the initiating client, presented in a way the statement does not oblige the provider to accept
-	isInitiator       // the initiating client, authenticated the way it is registered
+	mustRefuse  = iota // not the (authenticated / identified) initiating client
+	maySucceed         // the initiating client, presented in a way the statement does not oblige the provider to accept
+	isInitiator        // the initiating client, authenticated the way it is registered
 )
 
 // classify decides from the request content alone. why names the class of a refusal
